@@ -230,7 +230,7 @@ Qed.
 Lemma model_meets_spec_proof : forall (e : env) (next : handler),
   (forall r w tr, next w_reset [] = (r, w, tr) -> logs_of tr = []) ->
   spec_ok (e_kind e) (e_glob e) (e_route e) (e_method e) (e_host e) (e_path e) (e_remote e)
-          (match next w_reset [] with (Panicked id, _, _) => Some id | _ => None end)
+          (match next w_reset [] with (Panicked id, _, _) => Some id | _ => None end) 1%nat
           (observe e next) = true.
 Proof.
   intros e next Hq. unfold observe, logger.
@@ -238,8 +238,8 @@ Proof.
   specialize (Hq _ _ _ eq_refl).
   destruct r as [|id]; unfold spec_ok; cbn [o_same_response o_panic o_records o_after_handler andb].
   - unfold logs_of in *. rewrite flat_map_app, Hq. cbn [flat_map app].
-    rewrite rev_app_distr. cbn [rev app]. cbn [andb].
-    apply assemble_record_ok; reflexivity.
+    rewrite rev_app_distr. cbn [rev app List.length Nat.eqb forallb andb].
+    rewrite assemble_record_ok by reflexivity. reflexivity.
   - rewrite Hq, N.eqb_refl. reflexivity.
 Qed.
 
@@ -252,6 +252,78 @@ Proof.
     { unfold logs_of. rewrite flat_map_app. cbn. apply app_nil_r. }
     destruct a; try (apply IH in H; rewrite H; exact X).
     inversion H; subst. exact X.
+Qed.
+
+(* ---------- several Logger instances in one chain ---------- *)
+
+Lemma loggers_S n e next : loggers (S n) e next = logger e (loggers n e next).
+Proof. reflexivity. Qed.
+
+Lemma loggers_records_proof : forall n (e : env) (next : handler) w tr,
+  (forall w' tr', next w tr = (Returned, w', tr') ->
+     loggers n e next w tr = (Returned, w', tr' ++ repeat (EvLog (assemble e w')) n)) /\
+  (forall id w' tr', next w tr = (Panicked id, w', tr') ->
+     loggers n e next w tr = (Panicked id, w', tr')).
+Proof.
+  induction n as [|n IH]; intros e next w tr; split.
+  - intros w' tr' H. cbn. rewrite app_nil_r. exact H.
+  - intros id w' tr' H. exact H.
+  - intros w' tr' H. rewrite loggers_S.
+    unfold logger at 1. destruct (IH e next w tr) as [IHr _]. rewrite (IHr _ _ H).
+    rewrite <- app_assoc. f_equal. f_equal.
+    clear. induction n as [|n IHn]; [reflexivity|]. cbn [repeat app]. rewrite IHn. reflexivity.
+  - intros id w' tr' H. rewrite loggers_S.
+    unfold logger at 1. destruct (IH e next w tr) as [_ IHp]. rewrite (IHp _ _ _ H). reflexivity.
+Qed.
+
+Lemma filter_app_len {A} (f : A -> bool) a b :
+  List.length (filter f (a ++ b)) = (List.length (filter f a) + List.length (filter f b))%nat.
+Proof. rewrite filter_app, app_length. reflexivity. Qed.
+
+Lemma filter_repeat_true {A} (f : A -> bool) x n : f x = true -> List.length (filter f (repeat x n)) = n.
+Proof. intro H. induction n as [|n IH]; cbn; [reflexivity|]. rewrite H. cbn. rewrite IH. reflexivity. Qed.
+
+Lemma filter_repeat_false {A} (f : A -> bool) x n : f x = false -> List.length (filter f (repeat x n)) = 0%nat.
+Proof. intro H. induction n as [|n IH]; cbn; [reflexivity|]. rewrite H. exact IH. Qed.
+
+Lemma in_scope_global s a : in_scope s (global_rec a) = attached_for s a.
+Proof. destruct a; [destruct s; reflexivity|reflexivity]. Qed.
+
+Lemma global_filter s globals :
+  List.length (filter (in_scope s) (map global_rec globals)) = List.length (filter (attached_for s) globals).
+Proof.
+  induction globals as [|a l IH]; cbn [map filter]; [reflexivity|].
+  rewrite in_scope_global. destruct (attached_for s a); cbn [List.length]; rewrite IH; reflexivity.
+Qed.
+
+Lemma global_self_filter globals :
+  List.length (filter (fun m => in_scope SRoute m && negb (mw_g m)) (map global_rec globals)) = 0%nat.
+Proof.
+  induction globals as [|a l IH]; cbn [map filter]; [reflexivity|].
+  destruct a; cbn [global_rec mw_g negb]; rewrite andb_false_r; exact IH.
+Qed.
+
+Lemma hall_count_eq globals n :
+  hall_count (route_mws globals n) = (List.length (filter (attached_for SRoute) globals) + n)%nat.
+Proof.
+  unfold hall_count, route_mws. rewrite filter_app_len, global_filter, filter_repeat_true by reflexivity. reflexivity.
+Qed.
+
+Lemma hself_count_eq globals n : hself_count (route_mws globals n) = n.
+Proof.
+  unfold hself_count, route_mws. rewrite filter_app_len, global_self_filter, filter_repeat_true by reflexivity. reflexivity.
+Qed.
+
+(* the composition of fox (applyMiddleware / applyRouteMiddleware over the records the options
+   append) runs exactly the Logger instances the specification expects *)
+Lemma chain_meets_spec_proof : forall k d globals tl al,
+  d = DServe \/ has_route k = true ->      (* the alias / Lookup entry points reach route handlers only *)
+  loggers_run k d globals tl al = expected_records k d globals tl al.
+Proof.
+  intros k d globals tl al Hd. unfold loggers_run, expected_records. cbv zeta.
+  rewrite ?hall_count_eq, ?hself_count_eq.
+  destruct d; destruct k; cbn [has_route scope_of] in *; try (destruct Hd; discriminate); rewrite ?hall_count_eq; unfold apply_count;
+    rewrite ?global_filter; lia.
 Qed.
 
 (* ---------- non-vacuity ---------- *)
